@@ -54,6 +54,11 @@ def jumpi_cases():
                     # every pushed state is a well-formed successor of exactly one direction
                     ctx.oblige("successors-are-well-formed (exact branching condition, right pc, valid target)", z3.BoolVal(all(k is not None for k in kinds) and len(set(map(id, [s for s, _ in o.succ]))) == len(o.succ)), info={"kinds": kinds})
                     ctx.oblige("at-most-one-successor-per-direction", z3.BoolVal(kinds.count("true") + kinds.count("true-error") <= 1 and kinds.count("false") <= 1))
+                    # the state that goes on in place is already active: the shared incremental solver holds ITS branching
+                    # condition.  Pending siblings re-synchronise the solver when they are activated, the active state never
+                    # does, so it must be the next one taken up: pushed last (the worklist is LIFO, see #worklist-protocol)
+                    order = [s for s, _ in o.succ]
+                    ctx.oblige("the state that continues in place is pushed after (above) every pending sibling", z3.BoolVal(o.ex not in order or order[-1] is o.ex), info={"position": str([("active" if s is o.ex else "pending") for s in order])})
                     has_t = "true" in kinds
                     has_f = "false" in kinds
                     logged = JU.JID in o.logged
@@ -77,7 +82,7 @@ def jumpi_cases():
                         ctx.oblige("not-proved-infeasible => fall-through kept or logged", z3.BoolVal(has_f or logged), info={"raised": raised})
                     ctx.oblige("both-queries-asked-once", z3.BoolVal(sorted(o.asked) == ["false", "true"]))
 
-                out.append(Case(f"{PROP}/sevm.SEVM.jumpi", f"check(c)={ct},check(not c)={cf},{entry}", harness, replay=JU.replay_jumpi, sources=JU.SOURCES))
+                out.append(Case(f"{PROP}/sevm.SEVM.jumpi", f"check(c)={ct},check(not c)={cf},{entry}", harness, replay=replay_jumpi_and_order, sources=JU.SOURCES))
     return out
 
 
@@ -963,8 +968,21 @@ def worklist_cases():
     return out
 
 
+def replay_jumpi_and_order(r):
+    rep = JU.replay_jumpi(r)
+    if rep.get("reproduced"):
+        return rep
+    return replay_script("jumpi_push_order.py", "if x==1 ..; if x==2 ..; if x==7 ..; else ..: is every value of x covered by a reported path?")(r)
+
+
+def prank_funds_cases():
+    from contracts import c14
+
+    return [Case(f"{PROP}/sevm.SEVM.call#funds-account", c.case, c.harness, replay=c.replay, sources=c.sources) for c in c14.call_prank_cases()]
+
+
 def build_cases(tier="quick"):
-    return jumpi_cases() + check_cases() + select_cases() + calldataload_cases() + funds_cases() + alias_cases() + symbolic_jump_cases() + path_cases() + worklist_cases()
+    return prank_funds_cases() + jumpi_cases() + check_cases() + select_cases() + calldataload_cases() + funds_cases() + alias_cases() + symbolic_jump_cases() + path_cases() + worklist_cases()
 
 
 ASSUMPTIONS = [
